@@ -16,7 +16,16 @@ def main():
         return
     out["file"] = getattr(pkg, "__file__", None)
     for chk in payload["checks"]:
-        cls = getattr(pkg, chk["client"], None)
+        mod = pkg
+        if chk.get("subpackage"):
+            # a service declared in a proto sub-package lives in <library package>.<sub-package>
+            try:
+                mod = importlib.import_module(payload["package"] + "." + chk["subpackage"])
+            except Exception as e:  # noqa
+                out["results"].append({"client": chk["client"], "is_class": False, "missing": [], "not_callable": [],
+                                       "module": None, "error": f"{type(e).__name__}: {e}"[:300]})
+                continue
+        cls = getattr(mod, chk["client"], None)
         rec = {"client": chk["client"], "is_class": inspect.isclass(cls), "missing": [], "not_callable": [], "module": None}
         if inspect.isclass(cls):
             rec["module"] = cls.__module__
